@@ -1,4 +1,7 @@
 import Dmn.Lemmas.EvalM
+import Dmn.Lemmas.ParserScope
+import Dmn.Lemmas.DrgScope
+import Dmn.Lemmas.Iter
 
 /-!
 # C13 — evaluation is pure: the caller's scope is untouched
@@ -299,3 +302,254 @@ example :
   exact ⟨_, rfl⟩
 
 end Dmn.Eval
+
+/-!
+# C13, parser half — a successful parse leaves the parsing scope as it found it
+
+The table `Dmn.Gen.ParserScope` is regenerated by `translate/parser_scope.py` from feel.y, lalr.rs,
+parser.rs, lexer.rs and scope.rs on every run; the first five theorems are decided over it, the others
+hold for every derivation tree of its grammar (any depth, any size) by induction
+(`Lemmas/ParserScope.lean`).
+-/
+
+namespace Dmn.ParserScope
+open Dmn.Gen.ParserScope
+
+/-- Outside the reduce actions nothing in the parser touches the scope (the driver loop, the
+constructors, the entry points, the macros, the lexer's token loop), and `Scope::push` / `pop` /
+`set_entry` are the operations modelled by `stepScope`. -/
+theorem parser_sources_as_modelled : otherScopeWrites.isEmpty = true ∧ scopeApiAsModelled = true := by
+  decide
+
+/-- The grammar read from feel.y (mid-rule actions as the empty nonterminals `$@k`) is the table the
+driver executes: the same rules in the same numbering as `YY_R1` / `YY_R2`, and `fn reduce` calls for each
+rule number the action feel.y writes after that rule. -/
+theorem driver_table_agrees : driverAgrees = true := by
+  decide +kernel
+
+/-- Every rule is locally balanced: entered with the contexts its left-hand side may count on, each
+symbol of its right-hand side finds what it needs, the rule's own action neither pops nor writes below the
+contexts the parse pushed itself, contains no effect the translator could not read, and the rule leaves
+what its left-hand side promises.  (The per-nonterminal promises are the witness `summary`, checked here.) -/
+theorem rule_actions_balanced : tableOk = true := by
+  decide +kernel
+
+/-- The start symbol promises: needs nothing of its own on the scope, leaves nothing. -/
+theorem start_symbol_closed : needOf startSymbol = 0 ∧ outOf startSymbol = 0 := by
+  decide +kernel
+
+/-- Each public entry point of parser.rs (`parse_expression`, `parse_textual_expression`,
+`parse_textual_expressions`, `parse_unary_tests`, `parse_name`, `parse_longest_name`, `parse_boxed_expression`,
+`parse_context`) selects by its pseudo start token exactly one rule of the start symbol: its parses are
+derivations of the start symbol. -/
+theorem entry_points_covered : entryPointsOk = true := by
+  decide +kernel
+
+/-- Every well-formed derivation tree of every symbol: entered with at least the `need` of its symbol,
+its trace never reaches below the parse's own contexts and replaces `need` by `out`. -/
+theorem derivation_scope_effect (t : Deriv) (hwf : t.wf = true) (k : Nat) :
+    runDepth (needOf t.sym + k) t.trace = some (outOf t.sym + k) :=
+  treeOk_all rule_actions_balanced t hwf k
+
+/-- Depth form: for EVERY derivation tree of the start symbol, the reduce actions executed in LR order,
+started with nothing of the parse's own on the scope, never pop a caller's context, never write an entry
+into a caller's context, and end with nothing of their own left. -/
+theorem parse_depth_balanced (t : Deriv) (hwf : t.wf = true) (hs : t.sym = startSymbol) :
+    runDepth 0 t.trace = some 0 := by
+  have h := derivation_scope_effect t hwf 0
+  rw [hs, start_symbol_closed.1, start_symbol_closed.2] at h
+  exact h
+
+/-- The same for any part of a parse that promises (0, 0) — an `expression`, a `context`, a
+`function_definition` … — wherever it stands: with `own` contexts of the parse already on the scope, they
+and everything below them are the same afterwards. -/
+theorem subtree_scope_balanced {Ctx Name : Type} (ops : CtxOps Ctx Name) (t : Deriv) (hwf : t.wf = true)
+    (hn : needOf t.sym = 0) (ho : outOf t.sym = 0) (cs : List (CEff Name)) (hres : Resolves t.trace cs)
+    (own caller : List Ctx) :
+    ∃ own', runScope ops (own ++ caller) cs = own' ++ caller ∧ own'.length = own.length := by
+  have h := derivation_scope_effect t hwf own.length
+  rw [hn, ho] at h
+  simp only [Nat.zero_add] at h
+  obtain ⟨own', h1, h2⟩ := runOwn_of_runDepth ops hres h own rfl
+  exact ⟨own', runScope_of_runOwn ops h1 caller, h2⟩
+
+/-- **A successful parse leaves the parsing scope as it found it.**  For every derivation tree of the start
+symbol, every choice of the names the `set_entry` calls write (and of how many a conditional one writes),
+and every representation of contexts: all effects stay within the contexts the parse pushed itself and
+none of them is left (`runOwn … [] = some []`), hence whatever scope the caller supplied — any number of
+contexts, any entries — is exactly the same afterwards. -/
+theorem parse_scope_balanced {Ctx Name : Type} (ops : CtxOps Ctx Name) (t : Deriv) (hwf : t.wf = true)
+    (hs : t.sym = startSymbol) (cs : List (CEff Name)) (hres : Resolves t.trace cs) :
+    runOwn ops [] cs = some [] ∧ ∀ caller : List Ctx, runScope ops caller cs = caller := by
+  obtain ⟨own', h1, h2⟩ := runOwn_of_runDepth ops hres (parse_depth_balanced t hwf hs) [] rfl
+  have : own' = [] := List.eq_nil_of_length_eq_zero h2
+  subst this
+  exact ⟨h1, fun caller => by simpa using runScope_of_runOwn ops h1 caller⟩
+
+-- Non-vacuity: `{}` through `parse_context` and `function() null` through `parse_expression` are
+-- well-formed derivations of the start symbol; both push one context and pop it.
+example :
+    let t : Deriv := .node 4 [.leaf 5, .node 81 [.leaf 15, .node 80 [], .node 82 [.leaf 26]]]
+    t.wf = true ∧ t.sym = startSymbol ∧ t.trace = [.push, .pop] := by
+  decide +kernel
+
+example :
+    let t : Deriv := .node 2 [.leaf 3, .node 9 [.node 12 [.node 139 [.leaf 23, .leaf 58, .node 138 [],
+      .node 140 [.leaf 28], .node 150 [.node 10 [.node 45 [.node 73 [.leaf 16]]]]]]]]
+    t.wf = true ∧ t.sym = startSymbol ∧ t.trace = [.push, .pop] := by
+  decide +kernel
+
+-- The semantics is not trivially satisfied: the same two effects in the other order pop a caller's
+-- context, a `set_entry` before the push writes into it, and the machine on the full scope shows it.
+example : runDepth 0 [.pop, .push] = none ∧ runDepth 0 [.setEntry, .push, .pop] = none
+    ∧ runDepth 0 [.push, .push, .pop] = some 1 := by decide
+
+example : runScope (⟨0, fun c n => c + n⟩ : CtxOps Nat Nat) [7, 8] [.pop, .push] = [0, 8]
+    ∧ runScope (⟨0, fun c n => c + n⟩ : CtxOps Nat Nat) [7, 8] [.set 1, .push, .pop] = [8, 8] := by decide
+
+end Dmn.ParserScope
+
+/-!
+# C13, model half — the evaluators of the model layer and the scope
+
+The requirement-graph model of C04 (`Dmn/Model/Drg.lean`, `DrgTable.lean`, definitions unchanged) evaluates
+decision logic as `EvalM` computations over an explicit scope.  `level base g G ff` is its FEEL environment
+with `ff` nested function-body evaluations, where a function body may be a FEEL expression, a boxed context,
+invocation, relation or decision table, or a decision service (`callBody`).  Lemmas: `Lemmas/DrgScope.lean`
+(through the generic induction principle of `Lemmas/EvalInd.lean`).
+-/
+
+namespace Dmn.Drg
+open EvalM Eval
+
+/-- Every FEEL expression evaluated inside a model — whatever knowledge models, boxed function bodies and
+decision services it calls, to any depth — leaves the scope exactly as it found it. -/
+theorem drg_expression_scope_preserved (base : Env) (g : Drg) (G ff : Nat) (a : Ast)
+    (s : Scope) (v : Value) (s' : Scope) (h : evalStep (level base g G ff).env a s = .ok (v, s')) : s' = s :=
+  pres_evalStep_of_topOnly_call _ (topOnly_level_call base g G ff) a s v s' h
+
+/-- A decision table — input values, output values, default entries, every input and output entry of every
+rule, then the hit policy — leaves the scope exactly as it found it. -/
+theorem dt_scope_preserved (base : Env) (g : Drg) (G ff : Nat) (hitPolicy : String) (inputs outputs rules : List Ast)
+    (s : Scope) (v : Value) (s' : Scope)
+    (h : evalTable (level base g G ff).env hitPolicy inputs outputs rules s = .ok (v, s')) : s' = s :=
+  pres_evalTable _ (topOnly_level_call base g G ff) hitPolicy inputs outputs rules s v s' h
+
+/-- A decision service called as a function works on a copy of the top context and hands the scope back as it
+was (`decision_service.rs:214-227`). -/
+theorem service_call_scope_preserved (gr : Graph) (id : String) (s : Scope) (v : Value) (s' : Scope)
+    (h : serviceCall gr id s = .ok (v, s')) : s' = s :=
+  pres_serviceCall gr id s v s' h
+
+/-- Any boxed expression (literal expression, context, invocation, function definition, relation, decision
+table, nested in any way): the contexts below the top of the scope and the height of the scope are as before —
+the only thing it may do is what `build_context_evaluator` does (`mod.rs:285-315`): bind the entries of a
+boxed context in the top context. -/
+theorem boxed_scope_effect (base : Env) (g : Drg) (G ff : Nat) (a : Ast) (below : Scope) (top : Ctx)
+    (v : Value) (s' : Scope) (h : evalBoxed (level base g G ff).env a (below ++ [top]) = .ok (v, s')) :
+    ∃ top', s' = below ++ [top'] :=
+  topOnly_evalBoxed _ (topOnly_level_call base g G ff) a below top v s' h
+
+/-- **Evaluating a decision is pure at the interface** (`decision.rs:150-207`): the logic runs in a scope made
+for this evaluation from one fresh context (`decision.rs:178`) and leaves exactly one context in it — nothing
+pushed is left, the context is not popped —, that scope is dropped, the input data are only read, and in the
+caller's output context only the entry of the decision's own output variable is written. -/
+theorem drg_eval_pure (base : Env) (g : Drg) (G ff : Nat) (prev : Graph) (d : Decision) (input sup out : Ctx)
+    (name : Option String) (out' : Ctx)
+    (h : decisionClosure g (level base g G ff).env prev d input sup out = .ok (name, out')) :
+    name = some d.var ∧ (∀ k, k ≠ d.var → Ctx.get out' k = Ctx.get out k) ∧
+    (∀ ctx v s', evalBoxed (level base g G ff).env d.logic [ctx] = .ok (v, s') → ∃ c', s' = [c']) := by
+  refine ⟨?_, ?_, ?_⟩
+  · unfold decisionClosure at h
+    split at h
+    · try simp only at h
+      split at h
+      · try simp only at h
+        split at h
+        · cases h; rfl
+        · cases h
+        · cases h
+      · cases h
+      · cases h
+    · cases h
+    · cases h
+  · intro k hk
+    unfold decisionClosure at h
+    split at h
+    · try simp only at h
+      split at h
+      · try simp only at h
+        split at h
+        · cases h
+          rw [Ctx.get_set, if_neg (fun e => hk e.symm)]
+        · cases h
+        · cases h
+      · cases h
+      · cases h
+    · cases h
+    · cases h
+  · intro ctx v s' hb
+    have := boxed_scope_effect base g G ff d.logic [] ctx v s' (by simpa using hb)
+    simpa using this
+
+/-- **Evaluating the same decision again gives the same value**: what a decision closure answers — the value
+stored under its output variable — does not depend on what earlier evaluations left in the output context it
+is handed (it is a function of the model, the decision, the input data and the enclosing service's input
+decisions only). -/
+theorem drg_eval_repeatable (g : Drg) (env : Env) (prev : Graph) (d : Decision) (input sup out1 out2 : Ctx) :
+    namedResult (decisionClosure g env prev d input sup out1) =
+      namedResult (decisionClosure g env prev d input sup out2) := by
+  unfold decisionClosure
+  split
+  · try simp only
+    split
+    · try simp only
+      split
+      · simp only [namedResult, Ctx.get_set, if_pos]
+      · rfl
+      · rfl
+    · rfl
+    · rfl
+  · rfl
+  · rfl
+
+/-- `evaluate_invocable` is a function of the model, the name and the input data (and the two fuels of the
+model): there is no other argument and no state — evaluating it twice gives the same outcome.  (In the model
+this is so by construction; that the code behaves the same is what the correspondence runs observe.) -/
+theorem drg_invocable_repeatable (base : Env) (g : Drg) (ff gf : Nat) (name : String) (input : Ctx)
+    (o1 o2 : Outcome Value) (h1 : evaluateInvocable base g ff gf name input = o1)
+    (h2 : evaluateInvocable base g ff gf name input = o2) : o1 = o2 := by
+  rw [← h1, ← h2]
+
+/-- exact arithmetic, no built-in functions: the evaluator of the witnesses below -/
+def purityWitnessEnv : Env where
+  num := NumOps.exact
+  call := fun _ => EvalM.diverge
+  bifPos := fun _ _ => .ok .null
+  bifNamed := fun _ _ => .ok .null
+  iter := Eval.Variant.code.iter
+  index := Eval.Variant.code.index
+
+/-- the boxed context `{a: 1, b: a}` -/
+def purityWitnessLogic : Ast :=
+  Boxed.context [.contextEntry (.contextEntryKey "a") (.numeric "1" ""), .contextEntry (.contextEntryKey "b") (.name "a")]
+
+-- Non-vacuity and tightness of `boxed_scope_effect`: a boxed context evaluated on the scope `[{z: null}, {x: null}]`
+-- returns; the context below the top is untouched, and the top context has the two entries bound in it (so
+-- "exactly as found" would be false of boxed contexts: the statement is the precise one).
+example :
+    ∃ v top', evalBoxed purityWitnessEnv purityWitnessLogic ([[("z", .null)]] ++ [[("x", .null)]])
+      = .ok (v, [[("z", .null)]] ++ [top']) ∧ top'.length = 3 :=
+  ⟨_, _, rfl, rfl⟩
+
+-- Non-vacuity of `drg_eval_pure` / `drg_eval_repeatable`: a decision with that logic, evaluated with an output
+-- context that already holds entries, answers with its variable and leaves the other entry alone.
+example :
+    let d : Decision := { id := "_d", name := "D", var := "D", ty := .untyped, reqInputs := [], reqDecisions := [],
+                          reqKnowledge := [], logic := purityWitnessLogic }
+    let g : Drg := { inputs := [], decisions := [d], bkms := [], services := [] }
+    ∃ out', decisionClosure g purityWitnessEnv divergeGraph d [] [] [("D", .null), ("other", .bool true)]
+        = .ok (some "D", out') ∧ Ctx.get out' "other" = some (.bool true) ∧ out'.length = 2 :=
+  ⟨_, rfl, rfl, rfl⟩
+
+end Dmn.Drg
